@@ -5,6 +5,8 @@
 //   direct_cmk rev A             pattern of the CRS matrix A in stored order (values are never looked at by the code)
 //   direct_cmk_pat rev n code    compact form for the exhaustive enumeration: entry (i,j) is stored iff bit i*n+j of `code`
 //                                is set, rows in increasing column order
+//   direct_cmk_pats rev n k code_1 .. code_k   the same for k patterns in one request (result lines concatenated): keeps the
+//                                exhaustive 5x5 enumeration of the thorough tier affordable
 // Result line: `ok n p_0 .. p_{n-1}`, or `oob` (n = 0: the code writes perm[0] and reads degree[0] of empty vectors; the real
 // code is run in a forked child and `oob` is printed iff the sanitizers kill it), or `precondition` (amgcl's exception).
 // Implementation-side oracles (independent of the model): the result is a permutation of 0..n-1; it does not depend on the
@@ -82,6 +84,18 @@ static Result execute(const Toks &t) {
         unsigned long long code = strtoull(s.c_str(), 0, 10);
         if (n * n < 64 && (code >> (n * n)) != 0) throw bad_input("code");
         Result r = run(rev, pat_matrix(n, code)); r.tag("pattern_enum"); return r;
+    } else if (op == "direct_cmk_pats") {
+        long rev = c.nat(), n = c.nat(), k = c.nat();
+        if (rev < 0 || rev > 1 || n < 0 || n > 7 || k < 1 || k > 64) throw bad_input("shape");
+        std::vector<unsigned long long> codes;
+        for (long q = 0; q < k; ++q) { const std::string &s = c.tok(); if (s.empty() || s.size() > 18) throw bad_input("code");
+            for (char ch : s) if (ch < '0' || ch > '9') throw bad_input("code");
+            unsigned long long code = strtoull(s.c_str(), 0, 10); if (n * n < 64 && (code >> (n * n)) != 0) throw bad_input("code"); codes.push_back(code); }
+        c.expect_end();
+        Result r; Line l; std::set<std::string> tags;
+        for (auto code : codes) { Result one = run(rev, pat_matrix(n, code)); l << one.out; if (!one.ok) r.fail(one.why + " (pattern " + std::to_string(code) + ")");
+            r.nontrivial = r.nontrivial || one.nontrivial; for (auto &t : one.tags) tags.insert(t); }
+        for (auto &t : tags) r.tag(t); r.tag("pattern_enum"); r.tag("pattern_batch"); r.out = l.get(); return r;
     }
     Result r; r.out = "bad-op"; return r;
 }
@@ -160,15 +174,22 @@ static void generate(Rng &rng, const Opts &o, std::vector<std::string> &lines) {
     // ---- 5x5: thorough = every off-diagonal pattern, diagonal mask derived from the code (all / none / pseudo-random);
     //      quick = a random sample of full 5x5 and 6x6 patterns
     if (T) {
-        for (unsigned long long off = 0; off < (1ULL << 20); ++off) {
-            unsigned long long code = 0; int b = 0; for (long i = 0; i < 5; ++i) for (long j = 0; j < 5; ++j) if (i != j) { if ((off >> b) & 1ULL) code |= 1ULL << (i * 5 + j); ++b; }
-            unsigned long long h = mix(off, o.seed); int dm = (int)(h % 3); unsigned long long dmask = dm == 0 ? 31 : dm == 1 ? 0 : ((h >> 8) & 31);
-            for (long i = 0; i < 5; ++i) if ((dmask >> i) & 1ULL) code |= 1ULL << (i * 5 + i);
-            emit_pat(lines, (long)((h >> 16) & 1), 5, code);
+        const unsigned long long B = 16;   // patterns per request
+        for (unsigned long long off0 = 0; off0 < (1ULL << 20); off0 += B) {
+            Line l; l << "direct_cmk_pats" << (long)((mix(off0, o.seed + 1) >> 16) & 1) << 5L << (long)B;
+            for (unsigned long long off = off0; off < off0 + B; ++off) {
+                unsigned long long code = 0; int b = 0; for (long i = 0; i < 5; ++i) for (long j = 0; j < 5; ++j) if (i != j) { if ((off >> b) & 1ULL) code |= 1ULL << (i * 5 + j); ++b; }
+                unsigned long long h = mix(off, o.seed); int dm = (int)(h % 3); unsigned long long dmask = dm == 0 ? 31 : dm == 1 ? 0 : ((h >> 8) & 31);
+                for (long i = 0; i < 5; ++i) if ((dmask >> i) & 1ULL) code |= 1ULL << (i * 5 + i);
+                l << std::to_string(code);
+            }
+            lines.push_back(l.get());
         }
     }
     for (long k = 0; k < (T ? 20000 : 6000); ++k) { long n = rng.range(5, 6); unsigned long long code = rng.next() & ((1ULL << (n * n)) - 1);
         if (rng.coin()) code &= rng.next(); if (rng.coin(1, 4)) code &= rng.next(); emit_pat(lines, rng.range(0, 1), n, code); }
+    for (long k = 0; k < 40; ++k) { long n = rng.range(0, 5), cnt = rng.range(1, 8); Line l; l << "direct_cmk_pats" << rng.range(0, 1) << n << cnt;
+        for (long q = 0; q < cnt; ++q) { unsigned long long code = n ? (rng.next() & rng.next() & ((1ULL << (n * n)) - 1)) : 0; l << std::to_string(code); } lines.push_back(l.get()); }
     // ---- random patterns up to n = 60
     for (long k = 0; k < 1500 * scale; ++k) {
         long n = rng.coin(1, 4) ? rng.range(1, 8) : rng.range(2, 60); int fam = (int)rng.range(0, 7);
@@ -183,6 +204,9 @@ static void generate(Rng &rng, const Opts &o, std::vector<std::string> &lines) {
     lines.push_back("direct_cmk 0 2 2 1 0 1 1 1");                   // truncated
     lines.push_back("direct_cmk_pat 0 2 16");                        // code has a bit outside the 2x2 pattern
     lines.push_back("direct_cmk_pat 0 2");                           // truncated
+    lines.push_back("direct_cmk_pats 0 2 2 3 16");                   // second code has a bit outside the 2x2 pattern
+    lines.push_back("direct_cmk_pats 1 2 3 3 5");                    // fewer codes than announced
+    lines.push_back("direct_cmk_pats 0 2 0");                        // empty batch
 }
 
 VH_MAIN(generate, execute)
